@@ -23,7 +23,7 @@ def run(ctx, replay):
     return ctx.finish(
         "model_checking",
         assumptions=["the unsampling and cycles->ns rules are named in the specification and evaluated by the harness with an independent formula (expm1 / exact rationals); truncated floats are compared within one unit or 1e-9 relative",
-                     "Java heapz/contentionz/CPU formats and growth/fragmentation headers are not rendered by a printer",
+                     "Java stacks are compared through the names the trailing location section gives each address (the parser clears the addresses)",
                      "a heap record with count 0 carries no block-size label (zero numeric labels cannot be represented in profile.proto; fix recorded under C02)",
                      "memory maps: two executable mappings and one non-executable one; the mapping-merging heuristics of massageMappings are exercised only as far as they must leave these alone"],
         exhaustive=True)
